@@ -686,24 +686,25 @@ func (r *recordOracle) OnStep(e *Engine, st *StepRec) *Violation {
 	return nil
 }
 
-// canonTrace renders per-session observations with ids renamed by first appearance.
+// canonTrace renders per-session observations so that two runs that differ only
+// in the router's random ids (and in orders that depend on map iteration) give
+// the same lines. Ids are not named by first appearance - that order depends on
+// map iteration inside the router (session lists, fan-out order) - but by the
+// rank of an isomorphism-invariant signature: the multiset of places (step,
+// session, message with all ids masked, position) in which the id occurs,
+// refined twice. Ids that cannot be told apart that way get the same name.
 func canonTrace(steps []map[int][]wamp.Message, nsess int) []string {
-	ids := map[uint64]int{}
-	strs := map[string]int{}
-	inMetaList := false
-	var rename func(x any) any
-	rename = func(x any) any {
+	type obs struct {
+		step, sess int
+		typ        string
+		fields     []any
+		meta       bool // a RESULT: id lists come out in map iteration order
+	}
+	var prep func(x any) any
+	prep = func(x any) any {
 		switch v := x.(type) {
-		case int64:
-			if v > 1<<20 { // router-chosen random ids are large; small numbers are payload
-				if _, ok := ids[uint64(v)]; !ok {
-					ids[uint64(v)] = len(ids) + 1
-				}
-				return fmt.Sprintf("id#%d", ids[uint64(v)])
-			}
-			return v
 		case string:
-			// ISO timestamps and random authids differ between runs
+			// ISO timestamps differ between runs
 			if len(v) >= 19 && v[4] == '-' && v[10] == 'T' {
 				return "<time>"
 			}
@@ -713,13 +714,8 @@ func canonTrace(steps []map[int][]wamp.Message, nsess int) []string {
 				return nil // an empty container and null are the same observation
 			}
 			out := map[string]any{}
-			keys := make([]string, 0, len(v))
-			for k := range v {
-				keys = append(keys, k)
-			}
-			sort.Strings(keys) // deterministic first-appearance order for id renaming
-			for _, k := range keys {
-				out[k] = rename(v[k])
+			for k, e := range v {
+				out[k] = prep(e)
 			}
 			return out
 		case []any:
@@ -727,64 +723,179 @@ func canonTrace(steps []map[int][]wamp.Message, nsess int) []string {
 				return nil
 			}
 			out := make([]any, len(v))
-			allIDs := true
 			for i, e := range v {
-				out[i] = rename(e)
-				switch out[i].(type) {
+				out[i] = prep(e)
+			}
+			return out
+		}
+		return x
+	}
+	var all []obs
+	for si, st := range steps {
+		for s := 0; s < nsess; s++ {
+			msgs := st[s]
+			for _, m := range msgs {
+				// the step in which a session ends: what else reaches it while
+				// it is being removed is order dependent; only the GOODBYE or
+				// ABORT counts
+				switch m.(type) {
+				case *wamp.Goodbye, *wamp.Abort:
+					msgs = []wamp.Message{m}
+				}
+			}
+			for _, m := range msgs {
+				o := obs{step: si, sess: s, typ: m.MessageType().String()}
+				switch x := m.(type) {
+				case *wamp.Welcome:
+					o.fields = []any{prep(Canon(x.ID))}
+				case *wamp.Result:
+					// stored events arrive as Go structs in-process and as maps when serialised
+					o.meta = true
+					o.fields = []any{prep(Canon(x.Request)), prep(Canon(x.Details)), prep(canonStored(x.Arguments)), prep(Canon(x.ArgumentsKw))}
+				case *wamp.Event:
+					// publication ids are random and, for the meta events of one
+					// departure, assigned in map-iteration order. C01 owns their consistency.
+					cp := *x
+					cp.Publication = 0
+					for _, f := range reflectFields(&cp) {
+						o.fields = append(o.fields, prep(Canon(f)))
+					}
+				default:
+					for _, f := range reflectFields(m) {
+						o.fields = append(o.fields, prep(Canon(f)))
+					}
+				}
+				all = append(all, o)
+			}
+		}
+	}
+	isID := func(x any) (uint64, bool) {
+		if v, ok := x.(int64); ok && v > 1<<20 { // router-chosen random ids are large; small numbers are payload
+			return uint64(v), true
+		}
+		return 0, false
+	}
+	// render one value under a naming; occ (optional) is told every id and its position
+	var render func(x any, meta bool, name func(uint64) string, path string, occ func(id uint64, path string)) any
+	render = func(x any, meta bool, name func(uint64) string, path string, occ func(uint64, string)) any {
+		if id, ok := isID(x); ok {
+			if occ != nil {
+				occ(id, path)
+			}
+			return name(id)
+		}
+		switch v := x.(type) {
+		case map[string]any:
+			out := map[string]any{}
+			for k, e := range v {
+				out[k] = render(e, meta, name, path+"/"+k, occ)
+			}
+			return out
+		case []any:
+			out := make([]any, len(v))
+			allIDs := true
+			for _, e := range v {
+				switch e.(type) {
 				case int64, string:
 				default:
 					allIDs = false
 				}
 			}
-			if allIDs && len(out) > 1 && inMetaList {
-				// id lists of the meta API come out in map iteration order
+			sortable := allIDs && len(v) > 1 && meta
+			for i, e := range v {
+				p := path + "/*"
+				if !sortable {
+					p = fmt.Sprintf("%s/%d", path, i)
+				}
+				out[i] = render(e, meta, name, p, occ)
+			}
+			if sortable {
 				sort.Slice(out, func(i, j int) bool { return fmt.Sprint(out[i]) < fmt.Sprint(out[j]) })
 			}
 			return out
 		}
-		_ = strs
 		return x
 	}
-	var out []string
-	for si, st := range steps {
-		for s := 0; s < nsess; s++ {
-			from := len(out)
-			msgs := st[s]
-			for _, m := range msgs {
-				if g, ok := m.(*wamp.Goodbye); ok {
-					// the step in which a session ends: what else reaches it while
-					// it is being removed is order dependent; only the GOODBYE counts
-					msgs = []wamp.Message{g}
-					break
-				}
+	line := func(o *obs, name func(uint64) string, occ func(uint64, string)) string {
+		parts := make([]string, len(o.fields))
+		for i, f := range o.fields {
+			r := render(f, o.meta, name, fmt.Sprint(i), occ)
+			if isEmptyCanon(r) {
+				r = nil
 			}
-			for _, m := range msgs {
-				var line string
-				switch x := m.(type) {
-				case *wamp.Welcome:
-					line = fmt.Sprintf("WELCOME %v", rename(Canon(x.ID)))
-				case *wamp.Result:
-					// stored events arrive as Go structs in-process and as maps when serialised
-					inMetaList = true
-					line = fmt.Sprintf("RESULT %v %s %s %s", rename(Canon(x.Request)), Show(rename(Canon(x.Details))), Show(rename(canonStored(x.Arguments))), Show(rename(Canon(x.ArgumentsKw))))
-				case *wamp.Event:
-					// publication ids are random and, for the meta events of one
-					// departure, assigned in map-iteration order: renaming by first
-					// appearance would differ between two runs. C01 owns their consistency.
-					cp := *x
-					cp.Publication = 0
-					line = msgCanonLine(&cp, rename)
-				default:
-					line = msgCanonLine(m, rename)
-				}
-				inMetaList = false
-				out = append(out, fmt.Sprintf("step%d s%d %s", si, s, line))
-			}
-			// what one session receives within one step is compared as a
-			// multiset: independent messages (several calls cancelled by one
-			// departure) come in no particular order; ordering is C08's subject
-			sort.Strings(out[from:])
+			parts[i] = Show(r)
 		}
+		return fmt.Sprintf("step%d s%d %s %s", o.step, o.sess, o.typ, strings.Join(parts, " "))
+	}
+	names := map[uint64]string{}
+	name := func(id uint64) string {
+		if n, ok := names[id]; ok {
+			return n
+		}
+		return "id#?"
+	}
+	for round := 0; round < 3; round++ {
+		sig := map[uint64][]string{}
+		for i := range all {
+			o := &all[i]
+			var found []struct {
+				id uint64
+				p  string
+			}
+			l := line(o, name, func(id uint64, p string) {
+				found = append(found, struct {
+					id uint64
+					p  string
+				}{id, p})
+			})
+			for _, f := range found {
+				sig[f.id] = append(sig[f.id], l+" @"+f.p)
+			}
+		}
+		keyOf := map[uint64]string{}
+		var keys []string
+		for id, occs := range sig {
+			sort.Strings(occs)
+			k := strings.Join(occs, "\n")
+			keyOf[id] = k
+			keys = append(keys, k)
+		}
+		sort.Strings(keys)
+		rank := map[string]int{}
+		for _, k := range keys {
+			if _, ok := rank[k]; !ok {
+				rank[k] = len(rank) + 1
+			}
+		}
+		next := map[uint64]string{}
+		for id, k := range keyOf {
+			next[id] = fmt.Sprintf("id#%d", rank[k])
+		}
+		names = next
+	}
+	type ln struct {
+		step, sess int
+		s          string
+	}
+	lines := make([]ln, len(all))
+	for i := range all {
+		lines[i] = ln{all[i].step, all[i].sess, line(&all[i], name, nil)}
+	}
+	// what one session receives within one step is compared as a multiset:
+	// independent messages (several calls cancelled by one departure) come in
+	// no particular order; ordering is C08's subject
+	sort.SliceStable(lines, func(i, j int) bool {
+		if lines[i].step != lines[j].step {
+			return lines[i].step < lines[j].step
+		}
+		if lines[i].sess != lines[j].sess {
+			return lines[i].sess < lines[j].sess
+		}
+		return lines[i].s < lines[j].s
+	})
+	out := make([]string, len(lines))
+	for i := range lines {
+		out[i] = lines[i].s
 	}
 	return out
 }
